@@ -19,6 +19,8 @@ import (
 type CaseSpec struct {
 	Args     []string
 	Stdin    []byte
+	// StdinStalls: stdin is a pipe that delivers Stdin and then stays open without data (a stalled producer)
+	StdinStalls bool
 	Timeout  time.Duration // watchdog; firing is judged by the parked criterion, never by itself
 	Sniff    []string      // devices on which sender-side kernel timestamps are taken
 	Setup    func(w *World)
@@ -183,9 +185,20 @@ func RunCase(sx string, spec *CaseSpec) (res *CaseResult) {
 	}
 	cmd := exec.Command(sx, spec.Args...)
 	cmd.Env = append(os.Environ(), spec.Env...)
-	if spec.Stdin != nil {
+	var stdinW *os.File
+	if spec.StdinStalls {
+		pr, pw, err := os.Pipe()
+		if err == nil {
+			cmd.Stdin = pr
+			stdinW = pw
+			defer pr.Close()
+			defer pw.Close()
+			go pw.Write(spec.Stdin)
+		}
+	} else if spec.Stdin != nil {
 		cmd.Stdin = bytes.NewReader(spec.Stdin)
 	}
+	_ = stdinW
 	so, _ := cmd.StdoutPipe()
 	se, _ := cmd.StderrPipe()
 	c.cmd = cmd
